@@ -110,9 +110,20 @@ func (u *union) Parse(ctx *parseContext, parent reflect.Value) (out []reflect.Va
 		return nil, err
 	}
 	for i := range vals {
-		vals[i] = maybeRef(u.members[i], vals[i]).Convert(u.typ)
+		vals[i] = maybeRef(u.memberType(vals[i].Type()), vals[i]).Convert(u.typ)
 	}
 	return vals, nil
+}
+
+// memberType returns the union member, as registered with Union(), that a parsed value of type
+// "t" belongs to. The index of a value in the result says nothing about which member matched.
+func (u *union) memberType(t reflect.Type) reflect.Type {
+	for _, m := range u.members {
+		if m == t || (m.Kind() == reflect.Ptr && m.Elem() == t) {
+			return m
+		}
+	}
+	return t
 }
 
 // @@
